@@ -55,9 +55,15 @@ def run_history(c, tmp, idx):
     path = os.path.join(d, "samples." + ("pkl" if engine == "pickle" else "csv"))
     use_const = rng.random() < 0.3
 
+    # the default choices in either key order, or for `b` only (every run then adds the choices for `a`):
+    # the merged mapping's key order need not be the function's signature order
+    defaults_kind = rng.choice(["ab", "ab", "ba", "b-only"])
+    defaults = {"ab": dict(CHOICES), "ba": {"b": CHOICES["b"], "a": CHOICES["a"]},
+                "b-only": {"b": CHOICES["b"]}}[defaults_kind]
+
     def new_sampler():
         r = xyzpy.Runner(fn, var_names="out", constants={"k": 2} if use_const else None)
-        return xyzpy.Sampler(r, data_name=path, default_combos=CHOICES, engine=engine)
+        return xyzpy.Sampler(r, data_name=path, default_combos=dict(defaults), engine=engine)
     ss = [new_sampler(), new_sampler()]
     model_ops, obs = [], []
     steps = []
@@ -75,7 +81,10 @@ def run_history(c, tmp, idx):
         elif rng.random() < 0.15:
             combos = {"b": lambda: 50}
             allowed["b"] = [50]
-        rep = {"engine": engine, "const": use_const, "steps": steps}
+        if defaults_kind == "b-only" and (combos is None or "a" not in combos):
+            combos = dict(combos or {})
+            combos["a"] = list(CHOICES["a"])
+        rep = {"engine": engine, "const": use_const, "steps": steps, "default_combos": defaults_kind}
         steps.append([kind, who, n, "override" if combos else "default"])
         try:
             if kind == "sample":
@@ -131,9 +140,9 @@ def run(tier, seed):
     c = core.Check("C15", tier, seed)
     gen_st = core.regen()
     b = core.build(PROP_FILE)
-    c.cov["translator"] = {k: v for k, v in gen_st.items() if k in ("GenRunner", "GenHarvest", "GenLabel")}
+    c.cov["translator"] = {k: v for k, v in gen_st.items() if k in ("GenRunner", "GenHarvest", "GenLabel", "GenFarmer")}
     c.cov["build"] = {"ok": b["ok"], "failed_file": b["failed_file"], "wall_s": round(b.get("wall_s", 0), 1)}
-    for u in ("GenRunner", "GenHarvest", "GenLabel"):
+    for u in ("GenRunner", "GenHarvest", "GenLabel", "GenFarmer"):
         if u in gen_st and not gen_st[u]["ok"]:
             c.obligation_broken(f"translator {u}", gen_st[u]["detail"])
     if not b["ok"]:
